@@ -22,7 +22,7 @@ def c03(tier, seed):
     vo, vcmd, vlog, _ = units_verus.run_unit("bf_alloc")
     obs += vo
     lo, lcmd, llog, _ = units_verus.run_unit("layout")
-    obs += units_verus.select(lo, r"::(pad_to_bitfield_unit|saw_bitfield_unit|padding_field|bitfield_unit|align_to_latest_field|saw_field_with_layout|member_layout_for_tracker)::", None, keep_meta=False)
+    obs += units_verus.select(lo, r"::(pad_to_bitfield_unit|saw_bitfield_unit|padding_field|bitfield_unit|align_to_latest_field|saw_field_with_layout|member_layout_for_tracker|saw_base)::", None, keep_meta=False)
     po, pcmd, plog, _ = units_verus.run_unit("packed")
     obs += units_verus.select(po, r"::CompInfo::is_packed::", None, keep_meta=False)
     so, scmd, slog, _ = units_verus.run_unit("bf_unit_start")
@@ -46,7 +46,7 @@ def c03(tier, seed):
             "bindgen/codegen/bitfield_unit.rs: get, set, raw_get, raw_set, get_bit, set_bit, raw_get_bit, raw_set_bit, extract_bit, change_bit (via callers), get_const, set_const, raw_get_const, raw_set_const",
             "bindgen/ir/comp.rs: bitfields_to_allocation_units (+ nested flush_allocation_unit), three contracts: (1) no clang offsets (class templates): every emitted bit-field satisfies the ABI placement rule, fields keep their order without overlap, offset_into_unit + width <= 8 * unit size; (2) clang offsets, every field ends at or after the earlier ones (structs): offset_into_unit + width <= 8 * unit size; (3) clang offsets otherwise (unions): witness of known finding F7",
             "bindgen/ir/comp.rs: CompInfo::is_packed (whether bit-fields are allocated with packed rules; callback iteration desugared by rule R16)",
-            "bindgen/codegen/struct_layout.rs: StructLayoutTracker::pad_to_bitfield_unit, saw_bitfield_unit (unit layout; the unit lands at the clang offset of its first bit-field), align_to_latest_field and saw_field_with_layout (the running offset that placement is computed from: never rounded up inside a packed record), the prelude of saw_field (member_layout_for_tracker, statements R18: the size a plain member adds to the running offset is its C size, also for an array of over-aligned elements - a later bit-field unit is padded from that offset)",
+            "bindgen/codegen/struct_layout.rs: StructLayoutTracker::pad_to_bitfield_unit, saw_bitfield_unit (unit layout; the unit lands at the clang offset of its first bit-field), align_to_latest_field and saw_field_with_layout (the running offset that placement is computed from: never rounded up inside a packed record), the prelude of saw_field (member_layout_for_tracker, statements R18: the size a plain member adds to the running offset is its C size, also for an array of over-aligned elements - a later bit-field unit is padded from that offset), saw_base (after a base class the running offset is the end of that base placed at its own alignment)",
             "bindgen/codegen/mod.rs: the accessor-emitting statement of <Bitfield as FieldCodegen>::codegen and Bitfield::extend_ctor_impl (unit bf_accessors, rule R4q): getter, setter, raw getter, raw setter (wrapper-union and const-generic forms) and the constructor step all address the bit-field's own unit field, offset_into_unit and width, in that order",
             "bindgen/ir/comp.rs: CompInfo::compute_bitfield_units (unit bf_getters): the allocation of bit-field units runs with exactly the packing CompInfo::is_packed reports",
             "bindgen/ir/comp.rs: Bitfield::{offset, bitfield_width, is_public, offset_into_unit, width} (unit bf_getters): code generation reads the stored clang offset, width and offset-into-unit unchanged - for zero-width separators too",
@@ -98,6 +98,7 @@ def c14(tier, seed):
         "functions_under_contract": [
             "bindgen/features.rs: RustTarget::stable, RustTarget::minor, RustTarget::is_compatible, RustFeatures::new, RustFeatures::new_with_latest_edition, RustEdition::is_available, RustTarget::latest_edition, RustEdition::from_str (literal inputs), LATEST_STABLE_RUST, EARLIEST_STABLE_RUST",
             "bindgen/ir/function.rs: FunctionSig::abi, FunctionSig::is_variadic (Verus unit fn_abi: the ABI gating site; override lookup = one uninterpreted accessor)",
+            "bindgen/lib.rs: BindgenOptions::set_rust_target (unit edition): choosing a target leaves the chosen edition (and the features) alone, so Builder::generate sees the pair the user asked for in whatever order the two builder calls were made",
             "bindgen/lib.rs: the feature-synchronisation / edition-validation expression of Builder::generate (Verus unit edition, block extracted by rule R18): unsupported edition -> BindgenError::UnsupportedEdition, otherwise RustFeatures::new(target, edition) / new_with_latest_edition(target)",
             "bindgen/codegen/helpers.rs: ast_ty::raw_type (Verus unit raw_type: ::core::ffi::X only when core_ffi_c)",
             "bindgen/codegen/mod.rs: the `let safety = ..` statements of <Var as CodeGenerator>::codegen and <Function as CodeGenerator>::codegen (Verus unit gates, let-statements extracted by rule R18): `unsafe extern` exactly when the target has unsafe_extern_blocks",
@@ -200,17 +201,18 @@ def c02(tier, seed):
         ],
         "unverified": [
             "CompInfo::codegen: the order of saw_* calls in the field loop and that the padding tokens returned there are emitted in place (the tail after the loop IS under contract)",
-            "StructLayoutTracker::saw_field (array 'ultra hack', needs live IR), ::new",
+            "StructLayoutTracker::new; how CompInfo::from_ty discovers members (closures handed to libclang's visit: which cursor is a field, which unnamed record is a member of its own - seed S109 is missed there)",
             "packed structs, unions and fields after a bit-field unit are covered by invariant + safety only",
             "raw_type's prefix/core/std selection (trusted to name the alias), Enum::codegen repr translation; the zero-sized/_address statement of CompInfo::codegen; C++ tail-padding reuse",
         ]})
 
 
 def c10(tier, seed):
-    return _verus_prop("C10", tier, seed, [("layout", r"::(blob|Layout::known_type_for_size|Layout::for_size_internal|Layout::for_size|integer_type|bitfield_unit|Layout::new|align_to|comp_tail_layout)::", None), ("opaque", None, None), ("opaque_alias", None, None), ("vouch", None, None), ("impl_debug", r"::(array_arm|instantiation_arm)::", None), ("base_storage", None, None), ("trace_impls", r"::Type::should_be_traced_unconditionally::", None), ("lattice_constrain", r"::HasVtableAnalysis::", None), ("prim_types", r"::(BindgenContext::is_stdint_type|type_from_named)::", None),
+    return _verus_prop("C10", tier, seed, [("layout", r"::(blob|Layout::known_type_for_size|Layout::for_size_internal|Layout::for_size|integer_type|bitfield_unit|Layout::new|align_to|comp_tail_layout)::", None), ("opaque", None, None), ("opaque_alias", None, None), ("union_repr", r"::union_field_can_copy::", None), ("vouch", None, None), ("impl_debug", r"::(array_arm|instantiation_arm)::", None), ("base_storage", None, None), ("trace_impls", r"::Type::should_be_traced_unconditionally::", None), ("lattice_constrain", r"::HasVtableAnalysis::", None), ("prim_types", r"::(BindgenContext::is_stdint_type|type_from_named)::", None),
                                            ("constrain", r"::CannotDerive::constrain_type::", None), ("blocklist", None, None), ("repr", None, None)], {
         "trusted_base": LAYOUT_TRUST,
         "functions_under_contract": ["bindgen/ir/ty.rs: Type::should_be_traced_unconditionally (unit trace_impls, shared with C09): pointers, references, arrays, functions, compounds, instantiations and resolved references are traced even when the item is opaque, so an opaque type reachable only through an array is still emitted as a blob", "bindgen/ir/context.rs: BindgenContext::lookup_sizedness and bindgen/ir/comp.rs: Base::requires_storage, Base::is_virtual (unit base_storage): a base class gets a field of its own unless it is virtual or zero-sized, and a type outside the analysed set (a blocklisted class) counts as zero-sized only when the C compiler gives it no size or it is an empty class - so the use of a blocklisted type as a base still names it (found and repaired F28)", "bindgen/codegen/helpers.rs: blob, integer_type, bitfield_unit", "bindgen/ir/layout.rs: Layout::{known_type_for_size, new, for_size_internal, for_size}",
+                                     "bindgen/ir/comp.rs: the per-member test of CompInfo::is_rust_union (unit union_repr, brace-less closure R18): whether a union member may sit bare in a Rust `union` is asked of its DECLARED type - a blocklisted typedef is not assumed Copy because the type it aliases is",
                                      "bindgen/codegen/mod.rs: the aliased-type statement of the TemplateAlias | Alias arm of <Type as CodeGenerator>::codegen (unit opaque_alias, let-statement R18): an opaque typedef is an alias for the blob of the typedef's OWN layout (an `aligned` attribute on the typedef changes size and alignment) with no template parameters; a typedef of an inexpressible type falls back to the same blob",
                                      "bindgen/codegen/mod.rs: Item::process_before_codegen and <Item as CodeGenerator>::codegen (unit blocklist): nothing at all is emitted for a blocklisted item, for an item disabled for code generation, or a second time for the same item - whatever the per-kind generators would do",
                                      "bindgen/ir/item.rs: Item::is_blocklisted; <Item as IsOpaque>::is_opaque, <Type as IsOpaque>::is_opaque (unit opaque: opaque exactly by annotation, by an --opaque-type name match, or through the type: Opaque kind, opaque instantiation / compound / referenced type)",
@@ -266,7 +268,7 @@ def c12(tier, seed):
         "functions_under_contract": ["bindgen/lib.rs: the input-path checks of Bindings::generate (missing -> NotExist, directory -> FolderAsHeader, unreadable -> InsufficientPermissions; file system uninterpreted) and the per-diagnostic step of parse() (severity Error or Fatal -> ClangDiagnostic error) -- blocks extracted by rule R18, unit gen_errors"] + LAYOUT_FNS + ["bindgen/ir/comp.rs: bitfields_to_allocation_units (no-clang-offset mode)", "and the functions of units macro_type, edges, derive_gate, derives, fn_abi (see C05, C07-C09, C14)",
                                      "bindgen/ir/analysis/*.rs: every insert / forward / constrain of the seven analyses under contract answers `Changed` exactly when the fact it owns strictly moved up its lattice (the `Changed`/`Same` clauses of units lattice_insert, lattice_constrain, has_float, has_tp_array, has_destructor, constrain, template_params): with the driver theorem of unit analyze this is the termination argument of the fix-point loops",
                                      "bindgen/ir/context.rs: ItemResolver::resolve (unit resolver): the reference/alias-following loop TERMINATES on every finite IR, cyclic or not (decreases: items not yet seen), never indexes outside the item table, and returns an item of the table",
-                                     "bindgen/codegen/mod.rs: <Vtable as CodeGenerator>::codegen under --vtable-generation (unit typedef_methods: the guard closure of the `if` and the signature lookup of the slot generator, R18): every virtual method the guard lets through has a function type of its own, so the lookup finds one - no panic (found and repaired F40); that `iter().all(guard)` covers what `filter_map` visits is std's meaning, not under contract", "bindgen/ir/context.rs: BindgenContext::rust_mangle (unit rust_mangle; rule R32: &str / String as character sequences, the keyword list one uninterpreted predicate): the string that reaches proc_macro2::Ident::new (which panics on a non-identifier) contains no `@`, `?` or `$` at any position, whatever the C name contains; names that need no mangling are unchanged", "bindgen/ir/context.rs: the kind-mapping statement of build_builtin_ty does not panic on any builtin kind (found and repaired F12: `_Complex int`)",
+                                     "bindgen/codegen/mod.rs: <Vtable as CodeGenerator>::codegen under --vtable-generation (unit typedef_methods: the guard closure of the `if` and the signature lookup of the slot generator, R18): every virtual method the guard lets through has a function type of its own, so the lookup finds one - no panic (found and repaired F40); the pointee lookup of the block-pointer arm of <Type as CodeGenerator>::codegen (--generate-block; F42) and the signature lookup of <Function as CSerialize>::serialize (--wrap-static-fns; F43) look behind typedefs, where the IR invariant gives a function type; that `iter().all(guard)` covers what `filter_map` visits is std's meaning, not under contract", "bindgen/ir/context.rs: BindgenContext::rust_mangle (unit rust_mangle; rule R32: &str / String as character sequences, the keyword list one uninterpreted predicate): the string that reaches proc_macro2::Ident::new (which panics on a non-identifier) contains no `@`, `?` or `$` at any position, whatever the C name contains; names that need no mangling are unchanged", "bindgen/ir/context.rs: the kind-mapping statement of build_builtin_ty does not panic on any builtin kind (found and repaired F12: `_Complex int`)",
                                      "bindgen/ir/function.rs: FunctionSig::abi never accepts an ABI that cannot be printed (ClangAbi::Unknown -> UnsupportedAbi; found and repaired F11: Function::codegen and <ClangAbi as ToTokens> panicked on it); bindgen/ir/var.rs: the character-literal arm of Var::parse (found and repaired F10)",
                                      "bindgen/codegen/mod.rs: the signature statement of Method::codegen_method and bindgen/ir/ty.rs: the constant-array arm of Type::from_clang_ty (unit codegen_guards): a method whose signature is not a function type (declared through a typedef) is left out, an array whose element type cannot be expressed gets opaque elements - neither aborts (found and repaired F29, F30)",
                                      "bindgen/codegen/mod.rs: the three naming statements of <Enum as CodeGenerator>::codegen (unit enum_consts, let-statements R18): the parent's canonical name is None exactly for top-level enums and neither `parent_canonical_name.as_ref().unwrap()` is reached with None; bindgen/ir/analysis/template_params.rs: UsedTemplateParameters::constrain and its helpers (unit template_params): the table `.expect()`s and the monotonicity `assert!` cannot fire given the table invariant",
@@ -288,7 +290,7 @@ INCRATE_TRUST = ["in-crate harness modules pulled in by cfg(kani) hook lines; Ty
 def c04(tier, seed):
     def extra():
         return units_incrate.run_spec(units_incrate.abi_spec())
-    return _verus_prop("C04", tier, seed, [("fnsig", None, None), ("ptr_lowering", None, None), ("fn_abi", r"::FunctionSig::(abi|is_variadic)::", None), ("link_name", None, None), ("method_wrapper", None, None), ("var_const", None, None), ("attrs", None, None), ("fn_args", None, None), ("mangling", None, None), ("builtin_ty", None, None), ("char_macro", r"::var_value@nonconst_initialised_F39::", None), ("typedef_methods", r"::fn_decl_signature::", None)], {
+    return _verus_prop("C04", tier, seed, [("fnsig", None, None), ("ptr_lowering", None, None), ("fn_abi", r"::FunctionSig::(abi|is_variadic)::", None), ("link_name", None, None), ("method_wrapper", None, None), ("var_const", None, None), ("attrs", None, None), ("fn_args", None, None), ("mangling", None, None), ("builtin_ty", None, None), ("char_macro", r"::var_value@nonconst_initialised_F39::", None), ("typedef_methods", r"::fn_decl_signature::", None), ("prim_types", r"::type_from_named::", None)], {
         "trusted_base": INCRATE_TRUST + ["calling-convention oracle: clang-c/Index.h CXCallingConv values x Rust reference ABI strings (kani_incrate/function_abi.rs)"],
         "functions_under_contract": ["bindgen/ir/function.rs: get_abi (Kani in-crate), FunctionSig::abi, FunctionSig::is_variadic (Verus unit fn_abi)",
                                      "bindgen/codegen/mod.rs: utils::fnsig_argument_type, utils::fnsig_return_ty_internal (Verus unit fnsig); the Pointer/Reference arm of <Type as TryToRustTy>::try_to_rust_ty (Verus unit ptr_lowering, block extracted by rule R18)",
@@ -298,6 +300,7 @@ def c04(tier, seed):
                                      "bindgen/ir/function.rs: cursor_declares_other_function, args_from_ty_and_cursor (iterator pipeline turned into an index loop, rule R29), and the parameter-visitor closure, the `is_own_cursor` and the `args` statements of FunctionSig::from_ty (unit fn_args): ARITY - a function prototype gets exactly the parameters it declares, each of the declared type, and the parameters of an enclosing declaration (function returning a function pointer, pointer to such a function) are never taken for its own (found and repaired F21); the child visitor never recurses",
                                      "bindgen/ir/function.rs: cursor_mangling, is_itanium_thunk and bindgen/clang.rs: the ABI-kind statement of TargetInfo::new (unit mangling; while-let R19, str operations as Seq-specified env functions R21): of the symbols libclang lists for a C++ function the binding names the last one that is the function itself - for a destructor under the Itanium ABI the complete-object destructor (never the deleting one), never a this-adjusting or covariant-return thunk (found and repaired F23); the Microsoft rules apply only to *-msvc targets",
                          "bindgen/codegen/mod.rs: the signature lookup of <Function as CodeGenerator>::codegen (unit typedef_methods, statements R18): a non-static member function declared through a typedef of a function type - whose function type has no `this` - is not declared at all (found and repaired F41: it was declared without its receiver)",
+            "bindgen/codegen/mod.rs: utils::type_from_named (unit prim_types, shared with C10): a parameter, return value or global spelled with a <stdint.h>/<stddef.h> name gets the Rust primitive of the same width AND sign (ssize_t is isize, not usize)",
             "bindgen/ir/var.rs: the value statement of Var::parse (unit char_macro, witness only): a non-const global must not become a Rust constant - known finding F39",
             "bindgen/ir/context.rs: the kind-mapping statement of BindgenContext::build_builtin_ty (unit builtin_ty, shared with C02): a parameter or return value of a builtin C/C++ type gets the bindgen kind of that very type (char32_t is 32 bits wide, not 16)",
                                      "bindgen/clang.rs: the per-token predicate of Cursor::has_attrs (unit attrs, closure R18): a token of an unexposed attribute names `noreturn` / `_Noreturn` / `warn_unused_result` only when it is of the attribute's token kind and spells exactly that name",
@@ -312,11 +315,11 @@ def c04(tier, seed):
 
 
 def c05(tier, seed):
-    return _verus_prop("C05", tier, seed, [("macro_type", None, None), ("eval_int", None, None), ("char_macro", r"^(?!.*@nonconst_initialised_F39)", None), ("builtin_ty", None, None)], {
+    return _verus_prop("C05", tier, seed, [("macro_type", None, None), ("eval_int", None, None), ("char_macro", r"^(?!.*@nonconst_initialised_F39)", None), ("builtin_ty", None, None), ("cexpr_tokens", None, None)], {
         "trusted_base": ["extraction rules R1-R11; env/macro_type_env.rs: uninterpreted option reads; assume_specification for i64::from(u8|u16|u32) (lossless widening)",
                          "C-model table kind_bits/kind_signed written from the kinds' names (contracts/macro_type.py)",
                          "env/eval_int_env.rs: each libclang evaluator entry point is a distinct uninterpreted function of the result handle (rule R20: `unsafe { f(x) }` -> `{ f(x) }`, FFI functions are safe stubs); an out-of-range `u64 as i64` cast is the same (unspecified but fixed) function on both sides of the contract"],
-        "functions_under_contract": ["bindgen/ir/var.rs: the function-like-macro guard of Var::parse (unit char_macro, statements R18 up to the use of the evaluated value: a function-like macro never reaches the expression evaluator, with or without callbacks; found and repaired F31) and the `is_float` statement (a floating-point constant only for float / double variables; found and repaired F32)", "bindgen/ir/var.rs: the value statement of Var::parse (unit char_macro, let-statement R18): the constant a variable's initialiser becomes has the shape of the variable's type (an integer or bool for integer types, a float for float / double, otherwise at most a string)", "bindgen/ir/var.rs: default_macro_constant_type", "bindgen/ir/int.rs: IntKind::is_signed, IntKind::known_size",
+        "functions_under_contract": ["bindgen/ir/var.rs: the function-like-macro guard of Var::parse (unit char_macro, statements R18 up to the use of the evaluated value: a function-like macro never reaches the expression evaluator, with or without callbacks; found and repaired F31) and the `is_float` statement (a floating-point constant only for float / double variables; found and repaired F32)", "bindgen/clang.rs: ClangToken::as_cexpr_token (unit cexpr_tokens): every token of a macro body except comments reaches the cexpr evaluator, under the kind libclang reports and with its spelling - dropping an operator keyword would leave a different well-formed expression", "bindgen/ir/var.rs: the value statement of Var::parse (unit char_macro, let-statement R18): the constant a variable's initialiser becomes has the shape of the variable's type (an integer or bool for integer types, a float for float / double, otherwise at most a string)", "bindgen/ir/var.rs: default_macro_constant_type", "bindgen/ir/int.rs: IntKind::is_signed, IntKind::known_size",
                                      "bindgen/ir/context.rs: the kind-mapping statement of BindgenContext::build_builtin_ty (unit builtin_ty, shared with C02/C04): the type of a const variable and the underlying type of an enum get the bindgen integer kind of that very C type, so the Rust type has its width and sign (char32_t: 32 bits, unsigned)",
                                      "bindgen/clang.rs: EvalResult::kind, EvalResult::as_int (which libclang getter supplies the value of a const initialiser / fallback macro); Cursor::enum_val_signed / enum_val_unsigned / enum_val_boolean (enumerator values: the getter matching the signedness)",
                                      "bindgen/codegen/mod.rs: the repr-translation statement of <Enum as CodeGenerator>::codegen (unit macro_type, let-statement R18): the translated integer type has the enum's width and signedness",
@@ -375,7 +378,7 @@ def c08(tier, seed):
         return units_incrate.run_spec(units_incrate.derive_tables_spec())
     return _verus_prop("C08", tier, seed, [("derive_gate", None, None), ("derives", None, None), ("constrain", None, None), ("fn_abi", r"function_pointers_can_derive", None),
                                            # the float exclusion for Eq/Ord and the derive analysis' own subscriptions are C08 mechanisms too
-                                           ("edges", r"::(has_float_consider_edge|consider_edge_default)::", None), ("has_float", None, None), ("union_repr", r"::CompInfo::is_rust_union::", None), ("bitfield_limit", None, None), ("impl_debug", None, None), ("opaque_wrapper", None, None)], {
+                                           ("edges", r"::(has_float_consider_edge|consider_edge_default)::", None), ("has_float", None, None), ("union_repr", r"::(CompInfo::is_rust_union|union_field_can_copy)::", None), ("bitfield_limit", None, None), ("impl_debug", None, None), ("opaque_wrapper", None, None)], {
         "trusted_base": INCRATE_TRUST + ["env/derive_gate_env.rs: uninterpreted options and analysis lookups; generic impl<T> instantiated at T = ItemId",
                                         "rule-table oracle written from the property statement (kani_incrate/derive_tables.rs)"],
         "functions_under_contract": ["bindgen/codegen/mod.rs: the derive decision of a forward-declared struct in CompInfo::codegen (unit derives, let-statement R18: only Debug, and only when no option, pattern or annotation switches it off; found and repaired F34) and the statements of utils::prepend_opaque_array_types that build one wrapper definition (unit opaque_wrapper, templates by rule R4u: the __BindgenOpaqueArrayN wrappers name PartialOrd / Ord whenever those derives are requested; found and repaired F33)",
